@@ -373,6 +373,60 @@ def extra(ctx, uberjob):
         if d or oc != "returned" or tot != done:
             ctx.fail("transform:account", "transform_physical (%s): %s; run %s; totals announced %d, completed %d" % (how, d or "well-formed", oc, tot, done),
                      {"transform": how, "notifications": [repr(e) for e in seq[:40]]})
+    # (e) a call that fails with an unusual exception object (falsy, unhashable, with a raising __str__) is still reported
+    # failed exactly once and the account is closed
+    import dataclasses
+
+    class FalsyError(Exception):
+        def __bool__(self):
+            return False
+
+        def __len__(self):
+            return 0
+
+    @dataclasses.dataclass(eq=True)
+    class DataError(Exception):          # eq without hash: unhashable exception objects
+        rows: list
+
+    class BadStr(Exception):
+        def __str__(self):
+            raise RuntimeError("str of the exception fails")
+    for exc in (FalsyError("f"), DataError([1]), BadStr("b")):
+        for workers, max_errors in ((1, 0), (3, None)):
+            def bad(exc=exc):
+                raise exc
+            plan = uberjob.Plan()
+            with plan.scope("bad"):
+                b_ = plan.call(bad)
+            g_ = plan.call(lambda: 1)
+            prog = RecProgress()
+            try:
+                uberjob.run(plan, output=[b_, g_], progress=prog, max_workers=workers, max_errors=max_errors)
+                oc = "returned"
+            except uberjob.CallError as e:
+                oc = "callerror" if e.__cause__ is exc else "callerror with another cause"
+            except BaseException as e:      # noqa
+                oc = "raised %s" % type(e).__name__
+            seq = prog.made[0].seq if prog.made else []
+            d = py_wf(seq)
+            nfailed = sum(1 for e in seq if e[0] == "failed")
+            ctx.case(("c15-unusual-exception", type(exc).__name__, workers, max_errors))
+            if d or nfailed != 1 or oc != "callerror":
+                ctx.fail("unusual-exception:account", "a call raising a %s object: %s; %d failed notification(s); run %s"
+                         % (type(exc).__name__, d or "account well-formed", nfailed, oc), {"exception": type(exc).__name__, "max_workers": workers,
+                                                                                      "notifications": [repr(e) for e in seq[:30]]})
+    # (f) the same Progress listed twice takes part twice
+    for form in ("[p, p]", "(p, q, p)"):
+        p_, q_ = RecProgress(), RecProgress()
+        arg = [p_, p_] if form == "[p, p]" else (p_, q_, p_)
+        plan = uberjob.Plan()
+        x_ = plan.call(lambda: 1)
+        uberjob.run(plan, output=x_, progress=arg, max_workers=1)
+        ctx.case(("c15-repeated-member", form))
+        bad_ = [len(p_.made) != 2] + [py_wf(o.seq) for o in p_.made + q_.made]
+        if any(bad_):
+            ctx.fail("repeated-member", "run(progress=%s): the Progress listed twice created %d observer(s); accounts: %r" % (form, len(p_.made), bad_[1:]),
+                     {"form": form})
     # (d) Ctrl-C while a call is in flight: the account is still closed when run raises - the in-flight call's completion is
     # reported BEFORE the observer is exited, nothing is reported afterwards
     import signal
